@@ -12,7 +12,11 @@ LEVEL = "model_checking"
 OFFM, ONM = "*INDENT-OFF*", "*INDENT-ON*"
 LEXT = {"C": ".c", "CPP": ".cpp", "PAWN": ".pawn", "JAVA": ".java", "CS": ".cs", "D": ".d"}
 RAW = ["/* foo %d */ x(); /* then the enable text: *INDENT-ON* */", "\t x  =  [ (  {  %d   ", "  @@ $$ garbage `  %d", "    indented   raw %d\t", "if(a){b;}else   {c ;}  // %d  ", "\"unterminated %d",
-       "   a=b+c  ;    /* in region %d */   ", "\t\t\ttabs\tinside\t%d", "#define  X%d   ( 1+2 )", "}  ) ] %d", "   'q %d", "  café  %d  "]
+       "   a=b+c  ;    /* in region %d */   ", "\t\t\ttabs\tinside\t%d", "#define  X%d   ( 1+2 )", "}  ) ] %d", "   'q %d", "  café  %d  ",
+       # lines the tokenizer has other readers for (comments in column 1 under disable_processing_nl_cont)
+       # (a region line that ends in a backslash is left out: whether the marker line behind it is 'spliced' is read differently by the
+       #  observation layer's lexer and by the line-wise reader of regions)
+       "//   note %d   ", "/* col1 %d */   \t"]
 
 
 def render(kinds, rng, style=0, final_nl=True, lang="C"):
@@ -333,7 +337,7 @@ def run(ctx):
     cfgs = [""] + [cfggen.random_any_config(ctx.rng, unc) for _ in range(11 if quick else 60)]
     cfgs += ["cmt_convert_tab_to_spaces=true\ncmt_indent_multi=true\n", "nl_max=1\neat_blanks_after_open_brace=true\neat_blanks_before_close_brace=true\n",
              "align_var_def_span=3\nalign_assign_span=2\nindent_columns=2\nindent_with_tabs=0\n", "newlines=crlf\ncode_width=20\n",
-             "mod_pawn_semicolon=true\n",
+             "mod_pawn_semicolon=true\n", "disable_processing_nl_cont=true\n", "disable_processing_nl_cont=true\ncmt_width=20\nsp_before_nl_cont=force\nalign_nl_cont=1\n",
              # the options that delete line breaks or add tokens next to whatever stands there
              "nl_remove_extra_newlines=2\n", "nl_remove_extra_newlines=1\n",
              "nl_create_list_one_liner=true\nnl_create_func_def_one_liner=true\nnl_create_if_one_liner=true\nnl_create_for_one_liner=true\nnl_create_while_one_liner=true\n",
@@ -347,7 +351,7 @@ def run(ctx):
         ctx.rng.shuffle(gen)
         allseq = gen[:500] + extra
     for i, kinds in enumerate(allseq):
-        for cfgt in ctx.rng.sample(cfgs, 2 if quick else 4):
+        for cfgt in ctx.rng.sample(cfgs, 2 if quick else 4) + ([cfgs[-1 - (i % 2)] if False else ("disable_processing_nl_cont=true\n" if i % 3 == 0 else "")] if any(k in ("raw", "offtail") for k in kinds) else []):
             lang = ctx.rng.choice(["C", "C", "C", "PAWN", "CPP", "JAVA", "CS", "D"])
             if lang == "PAWN" and ctx.rng.random() < 0.5:
                 cfgt = cfgt + "mod_pawn_semicolon=true\n"
